@@ -116,8 +116,27 @@ func c09Extra(c *eng.Ctx) {
 			return false
 		}
 		isLeader := func(v ssa.Value) bool {
-			_, path := eng.AccessPath(v)
-			return len(path) > 0 && path[len(path)-1] == "Leader"
+			// the reported leader, read from the endpoint directly or handed to a helper as a parameter
+			for i := 0; i < 4 && v != nil; i++ {
+				if _, path := eng.AccessPath(v); len(path) > 0 && path[len(path)-1] == "Leader" {
+					return true
+				}
+				p, isParam := v.(*ssa.Parameter)
+				if !isParam {
+					return false
+				}
+				args := eng.UpArgs(p)
+				if len(args) == 0 {
+					return false
+				}
+				for _, a := range args[1:] {
+					if _, path := eng.AccessPath(a); !(len(path) > 0 && path[len(path)-1] == "Leader") {
+						return false
+					}
+				}
+				v = args[0]
+			}
+			return false
 		}
 		return isLeader(r.X) || isLeader(r.Y)
 	}
